@@ -22,12 +22,12 @@ def consts(tier: str):
         return {
             "Variant": '"fixed"', "Topos": g.tla_set(["face2", "edge2", "ell3"]), "Rot1Choice": "{1}",
             "RotChoice": "{1, 30}", "ChopOpts": g.tla_set(["A2", "B3"]), "MaxChopped": "1", "Cover": "TRUE",
-            "AllOrders": "FALSE", "PassBound": "4",
+            "AllOrders": "FALSE", "PassBound": "4", "Rounds": "2",
         }
     return {
         "Variant": '"fixed"', "Topos": g.tla_set(["face2", "edge2", "row3", "ell3", "hook3"]), "Rot1Choice": "{1}",
         "RotChoice": "{1, 4, 30}", "ChopOpts": g.tla_set(["A2", "B3"]), "MaxChopped": "2", "Cover": "TRUE",
-        "AllOrders": "FALSE", "PassBound": "4",
+        "AllOrders": "FALSE", "PassBound": "4", "Rounds": "2",
     }
 
 
